@@ -296,6 +296,17 @@ def eval_eui_bad(ctx, case):
               'malformed-mac': 'eui64-must-raise-malformed-mac'}[cls]
     ctx.clause(clause)
     ctx.h('eui64 rejection class', '%s / %s' % (cls, case.get('sub', '-')))
+    # what else the caller may have asked the module just before (validators on the same strings, the same prefix with
+    # a numerically equal integer MAC) has no bearing on the answer
+    from oslo_utils import netutils as _nu
+    for f in (_nu.is_valid_cidr, _nu.is_valid_ip, _nu.is_valid_ipv6_cidr, _nu.is_valid_mac):
+        for arg in (prefix, mac):
+            try:
+                f(arg)
+            except BaseException:  # noqa
+                pass
+    if isinstance(mac, float) and mac == int(mac):
+        _call_eui(prefix, int(mac))
     got, exc = _call_eui(prefix, mac)
     if exc is None:
         ctx.fail(clause, case, {'prefix': prefix, 'mac': mac, 'returned': str(got)})
@@ -599,6 +610,7 @@ BAD_MACS = [   # (text or object, sub-class) - unambiguously not a 48-bit MAC
     ('00 16 3e 33 44 55', 'foreign-separator'), ('00.16.3e.33.44.55', 'foreign-separator'),
     ('00:16:3e:33:44:-5', 'sign'), ('0x00163e334455', '0x-prefix'), ('mac', 'word'),
     (None, 'type-None'), (1.5, 'type-float'), ([], 'type-list'), ({}, 'type-dict'),
+    (95532827733.0, 'type-float-integral'), (0.0, 'type-float-integral'), (281474976710655.0, 'type-float-integral'),
 ]
 BAD_PREFIXES = [
     ('', 'empty'), ('bogus', 'word'), ('bb', 'word'), ('2001:db8::/129', 'length>128'),
@@ -1018,6 +1030,13 @@ def run(ctx):
                   qcls=qcls, frag=frag, fcls=fcls, allow_fragments=af, default_scheme=dsch, af_mode='kw'),
              'url/grid')
     ctx.exhaustive['URL grid scheme x netloc x path x query x fragment x allow_fragments x default scheme'] = True
+    # queries with very many fields (no limit on their number is documented): last / all values still come out right
+    for nf in (999, 1000, 1001, 5000):
+        pairs = [['k%d' % (j % 700), 'v%d' % j] for j in range(nf)]
+        query = '&'.join('%s=%s' % (k, v) for k, v in pairs)
+        emit(dict(kind='url', scheme='http', netloc='example.com', ncls='name', path='/p', query=query, pairs=pairs,
+                  qcls='pairs-many-fields', frag=None, fcls='none', allow_fragments=True, default_scheme=None,
+                  af_mode='kw'), 'url/many-fields')
     for u in ILL_FORMED_URLS:
         for af in (True, False):
             emit(dict(kind='url', scheme='', netloc=None, path=u, query=None, frag=None, pairs=None,
